@@ -185,6 +185,10 @@ impl<'buf> Session<'buf> {
             return Err(Error::Peer(err));
         }
 
+        // In-flight publishes of a resumed session are re-sent on this connection and keep
+        // occupying the broker's receive window.
+        let send_quota = send_quota.saturating_sub(self.data.outbound.inflight_publishes());
+
         self.runtime.session_resumed = resumed;
         self.runtime.keepalive_interval = keepalive_interval;
         self.runtime.send_quota = send_quota;
